@@ -184,9 +184,15 @@ func runFeatureBits(c *core.Ctx) []core.Obligation {
 			continue
 		}
 		dir := []string{"C04", "C13"}
+		need := want
 		lname := strings.ToLower(name)
 		if strings.Contains(lname, "decode") || strings.Contains(lname, "read") || strings.Contains(lname, "skip") {
 			dir = []string{"C04", "C08"}
+			// the decoders also hand down the strict bit (decodeFlags = strict | protocolFlags): a
+			// wrapper that forgets it makes strict mode stop at the first pointer
+			if df, ok := thriftConst(c, "decodeFlags"); ok {
+				need = want | uint64(df)
+			}
 		}
 		count := 0
 		for _, ci := range callsIn(fn) {
@@ -215,10 +221,10 @@ func runFeatureBits(c *core.Ctx) []core.Obligation {
 			if m.isConst {
 				m.keep = 0
 			}
-			if m.keep&want == want {
+			if m.keep&need == need {
 				b.addP(dir, core.Discharged, key, c.InstrPos(ci), "the nested codec receives the protocol feature bits of the caller's flags")
 			} else {
-				b.addP(dir, core.Violation, key, c.InstrPos(ci), fmt.Sprintf("%s hands flags (%s) to a nested codec that do not keep the protocol feature bits %#x of its own flags parameter (kept: %#x): the struct codecs below it decide between delta-encoded and absolute field ids, and between booleans folded into the field header and written after it, without knowing what the protocol's writer and reader do with the header — in the compact protocol ids written as 1, 2, 5 are read back as 1, 3, 8", name, texpr(farg, 0), want, m.keep&want))
+				b.addP(dir, core.Violation, key, c.InstrPos(ci), fmt.Sprintf("%s hands flags (%s) to a nested codec that do not keep the bits %#x of its own flags parameter (kept: %#x; protocol features %#x, and on the decoding side the strict bit): the struct codecs below it decide between delta-encoded and absolute field ids, and between booleans folded into the field header and written after it, without knowing what the protocol's writer and reader do with the header — in the compact protocol ids written as 1, 2, 5 are read back as 1, 3, 8 — and a decoder that loses the strict bit silently skips a wrong wire type below that point instead of reporting a TypeMismatch", name, texpr(farg, 0), need, m.keep&need, want))
 			}
 		}
 	}
